@@ -20,6 +20,9 @@ for res in sorted(glob.glob("/tmp/confirm/*.result")):
     broken = int(kv.get("stable_tests_broken", "999"))
     serial_ok = kv.get("serial_rerun_rc") == "0"
     tests_ok = broken == 0 or serial_ok
+    chi = kv.get("chi_square_rc")
+    if chi is not None and not (chi == "0" or chi.startswith("not-run")):
+        tests_ok = False
     if not (ok and tests_ok):
         dropped.append((name, kv))
         continue
@@ -47,12 +50,13 @@ for res in sorted(glob.glob("/tmp/confirm/*.result")):
         "needs_to_manifest": meta.get("needs_to_manifest"),
         "author_tests_run": meta.get("tests_run"),
         "confirmed_by_us": {
-            "how": "tools/confirm_mutant2.sh in a scratch worktree of /repo HEAD: demo on the clean tree, demo with the patch, the whole test-suite with the patch "
+            "how": "tools/confirm_mutant3.sh (earlier ones: confirm_mutant2.sh) in a scratch worktree of /repo HEAD: demo on the clean tree, demo with the patch, the whole test-suite with the patch "
                    "(pytest -n 6, junit compared with BASELINE.json stable_pass; tests broken under xdist re-run serially)",
             "demo_clean_rc": kv.get("demo_clean_rc"), "demo_with_patch_rc": kv.get("demo_mut_rc"),
             "suite_summary": summary_line[0] if summary_line else None,
             "stable_tests_broken_under_xdist": broken, "serial_rerun_rc": kv.get("serial_rerun_rc"),
             "stable_seen": kv.get("stable_seen"),
+            "gaussian_chi_square_sampling_tests": kv.get("chi_square_rc", "part of the full run"),
         },
         "applies_to_current_repo_head": applies,
         "detected_by": det,
